@@ -224,6 +224,38 @@ def oracle(run, case, real):
                     run.violation('second-send:stale-picture %s outs_jpg=%r kind=%s' % (t, oj, case['kinds'].get(t)),
                                   'after the owner drew into its writable image the frame shows %r... and what is sent decodes to %r...'
                                   % (img.ravel()[:4].tolist(), g.ravel()[:4].tolist()), case)
+    # another thread that holds the same read-only frame asks for its jpg (the Webvis / MQTTOut threads do) while the frame is being
+    # encoded for the wire: one forced interleaving - the other thread's .jpg (which caches the encoding on the frame) lands
+    # right after the encoder's first look at has_jpg.  What goes out still decodes to the frame's picture.
+    if not real and oj is None:
+        cands = [t for t, f in frames.items() if f.has_image and f.has_jpg is False and f.is_ro]
+        if cands:
+            t0 = cands[0]
+            f0 = frames[t0]
+            img0 = f0.image.copy()
+            orig = Frame.has_jpg
+            armed = [True]
+            def getter(self):
+                v = orig.fget(self)
+                if armed[0] and self is f0 and v is False:
+                    armed[0] = False
+                    self.jpg
+                return v
+            Frame.has_jpg = property(getter)
+            try:
+                try:
+                    out4 = MQ.topicmsgs2frames(MQ.frames2topicmsgs(frames, None))
+                    g = out4[t0].image if t0 in out4 and out4[t0].has_image else None
+                    if g is None or g.shape != img0.shape or not np.array_equal(g, img0):
+                        run.violation('concurrent-jpg:wrong-picture %s kind=%s' % (t0, case['kinds'].get(t0)),
+                                      'another thread cached the jpg of the frame while it was being encoded: what was sent decodes to %r, the frame shows %r'
+                                      % (None if g is None else g.ravel()[:4].tolist(), img0.ravel()[:4].tolist()), case)
+                except Exception as e:      # noqa
+                    run.violation('concurrent-jpg:raises %s kind=%s' % (t0, case['kinds'].get(t0)),
+                                  'another thread cached the jpg of the frame while it was being encoded: %s: %s' % (type(e).__name__, str(e)[:200]), case)
+            finally:
+                Frame.has_jpg = orig
+            run.count('concurrent-jpg')
     return canon
 
 def case_lit(sim, case):
